@@ -44,7 +44,7 @@ def swSend (d : DrvSt) (e : Nat) : DrvSt × String :=
 
 def swTake (d : DrvSt) (t : Target) : DrvSt × String :=
   match d.sw.inflight with
-  | some (e, t') =>
+  | some (e, t', _) =>
     if t' = t then
       let s := stepOr d.sw .deliver
       let s := match d.waiter with | some a => stepOr s a | none => s
